@@ -623,6 +623,41 @@ def cmd_baseline_off():
                 stdout=subprocess.PIPE, stderr=subprocess.STDOUT)
         out = r.stdout.decode(errors='replace')
         print(out[-6000:])
+        # sub-test level view, named like /root/.vp/BASELINE.json (test::sub-test), from the junit system-out
+        passed = set()
+        try:
+            import xml.etree.ElementTree as ET
+            tree = ET.parse(os.path.join(bdir, 'junit.xml'))
+            for tc in tree.getroot().iter('testcase'):
+                name = tc.get('name')
+                so = tc.find('system-out')
+                txt = so.text if so is not None and so.text else ''
+                subs = [ln.rsplit('... ', 1) for ln in txt.splitlines() if '... ' in ln and ln.rstrip().endswith(('passed.', 'FAILED.', 'failed.'))]
+                ok = tc.find('failure') is None and tc.get('status', 'run') != 'fail'
+                if subs:
+                    for nm, res in subs:
+                        if res.strip().startswith('passed'):
+                            passed.add('%s::%s' % (name, nm.strip()))
+                if ok:
+                    passed.add('%s::%s' % (name, name))
+            os.makedirs(DRV_BUILD, exist_ok=True)
+            shutil.copyfile(os.path.join(bdir, 'junit.xml'), os.path.join(DRV_BUILD, 'baseline-off.junit.xml'))
+        except Exception as ex:  # the ctest summary above still stands
+            print('[baseline-off] junit post-processing failed: %s' % ex)
+        want = None
+        try:
+            with open('/root/.vp/BASELINE.json') as f:
+                want = json.load(f).get('stable_pass')
+            if isinstance(want, str):
+                import ast
+                want = ast.literal_eval(want)
+        except Exception:
+            want = None
+        if want:
+            missing = [w for w in want if w not in passed]
+            print('[baseline-off] guard OFF: %d of %d pinned tests passed%s' % (len(want) - len(missing), len(want),
+                                                                              '' if not missing else '; NOT passed: ' + ', '.join(missing)))
+            return 0 if not missing else 1
         return 0 if r.returncode == 0 else 1
     finally:
         shutil.rmtree(bdir, ignore_errors=True)
